@@ -174,12 +174,20 @@ func Build(sc *Scenario, opt Options) *Run {
 	if !opt.NoTracer {
 		budget := opt.Budget
 		if budget == 0 {
+			// Logical step budget: a creation costs a handful of registry calls per candidate edge. A single
+			// slot contributes one edge, a slice slot at most one per component.
+			total := len(sc.Nodes) + len(opt.Extra) + len(opt.ExtraFirst) + 20
 			edges := 0
 			for _, n := range sc.Nodes {
-				edges += len(n.Tags)
+				for slot := range n.Tags {
+					if strings.HasPrefix(SlotByName(slot).Kind, "slice") {
+						edges += total
+					} else {
+						edges++
+					}
+				}
 			}
-			// every by-type slice edge may fan out to all nodes
-			budget = 40*(len(sc.Nodes)+len(opt.Extra)+20) + 60*edges*(len(sc.Nodes)+20) + 2000
+			budget = 2000 + 40*(total+edges)
 		}
 		r.Tracer = mon.NewRegistryTracer(scr, budget)
 		scr = r.Tracer
